@@ -163,7 +163,12 @@ func main() {
 		var order []string
 		done := make([]bool, 2)
 		vsched.GoNamed("late", func() { vtime.Sleep(2 * time.Second); order = append(order, "late"); done[0] = true })
-		vsched.GoNamed("early", func() { t := vtime.NewTimer(time.Second); vsched.Recv(t.C); order = append(order, "early"); done[1] = true })
+		vsched.GoNamed("early", func() {
+			t := vtime.NewTimer(time.Second)
+			vsched.Recv(t.C)
+			order = append(order, "early")
+			done[1] = true
+		})
 		join(done)
 		x = int(vsched.NowPeek() / time.Second)
 		if strings.Join(order, ",") != "early,late" {
